@@ -629,7 +629,18 @@ fn case_convert(sh: &mut Shard, idx: u64, r: &mut Rng) {
         _ => 12,
     };
     let depth = if r.chance(1, 6) { 32 } else { r.range(1, 8) as u32 };
-    let ty = gen_type(r, depth, &mut size);
+    let mut ty = gen_type(r, depth, &mut size);
+    if r.chance(1, 8) {
+        // reach the nesting bound of the claim exactly
+        while type_depth(&ty) < 32 {
+            ty = match r.below(4) {
+                0 => Type::List(*r.pick(&SIZE_LENS), Box::new(ty)),
+                1 => Type::Pair(Box::new(Type::Bool), Box::new(ty)),
+                2 => Type::Struct(Fields::Named(vec![("f".into(), ty)])),
+                _ => Type::Enum(vec![("A".into(), Fields::None), ("B".into(), Fields::Unnamed(vec![ty]))]),
+            };
+        }
+    }
     let d = type_depth(&ty);
     if d > 32 {
         sh.inconclusive.push(format!("generator produced nesting {}", d));
@@ -720,7 +731,142 @@ fn case_convert(sh: &mut Shard, idx: u64, r: &mut Rng) {
     }
 }
 
+// ------------------------------------------------------------------ declared byte-list lengths
+/// Permissive walk over (type, bytes) in the library's decoding order that records the largest
+/// length a `ByteList` / `ByteArray` would be read with. It stops only where the library must
+/// stop as well (end of input, undeclared enum variant, unterminated LEB128).
+fn walk(t: &Type, b: &[u8], pos: &mut usize, max_decl: &mut u64) -> Result<(), ()> {
+    fn take(b: &[u8], pos: &mut usize, n: usize) -> Result<(), ()> {
+        if b.len() - *pos < n {
+            *pos = b.len();
+            return Err(());
+        }
+        *pos += n;
+        Ok(())
+    }
+    fn len(b: &[u8], pos: &mut usize, sl: SizeLength) -> Result<u64, ()> {
+        let w = match sl {
+            SizeLength::U8 => 1,
+            SizeLength::U16 => 2,
+            SizeLength::U32 => 4,
+            SizeLength::U64 => 8,
+        };
+        let start = *pos;
+        take(b, pos, w)?;
+        let mut x = [0u8; 8];
+        x[..w].copy_from_slice(&b[start..start + w]);
+        Ok(u64::from_le_bytes(x))
+    }
+    fn fields(f: &Fields, b: &[u8], pos: &mut usize, m: &mut u64) -> Result<(), ()> {
+        match f {
+            Fields::Named(v) => v.iter().try_for_each(|(_, t)| walk(t, b, pos, m)),
+            Fields::Unnamed(v) => v.iter().try_for_each(|t| walk(t, b, pos, m)),
+            Fields::None => Ok(()),
+        }
+    }
+    match t {
+        Type::Unit => Ok(()),
+        Type::Bool | Type::U8 | Type::I8 => take(b, pos, 1),
+        Type::U16 | Type::I16 => take(b, pos, 2),
+        Type::U32 | Type::I32 => take(b, pos, 4),
+        Type::U64 | Type::I64 | Type::Amount | Type::Timestamp | Type::Duration => take(b, pos, 8),
+        Type::U128 | Type::I128 | Type::ContractAddress => take(b, pos, 16),
+        Type::AccountAddress => take(b, pos, 32),
+        Type::Pair(x, y) => {
+            walk(x, b, pos, max_decl)?;
+            walk(y, b, pos, max_decl)
+        }
+        Type::List(sl, x) | Type::Set(sl, x) => {
+            let n = len(b, pos, *sl)?;
+            for _ in 0..n.min(1 << 17) {
+                walk(x, b, pos, max_decl)?;
+            }
+            Ok(())
+        }
+        Type::Map(sl, k, v) => {
+            let n = len(b, pos, *sl)?;
+            for _ in 0..n.min(1 << 17) {
+                walk(k, b, pos, max_decl)?;
+                walk(v, b, pos, max_decl)?;
+            }
+            Ok(())
+        }
+        Type::Array(n, x) => {
+            for _ in 0..(*n as u64).min(1 << 17) {
+                walk(x, b, pos, max_decl)?;
+            }
+            Ok(())
+        }
+        Type::Struct(f) => fields(f, b, pos, max_decl),
+        Type::Enum(vs) => {
+            let start = *pos;
+            let i = if vs.len() <= 256 {
+                take(b, pos, 1)?;
+                b[start] as usize
+            } else {
+                take(b, pos, 2)?;
+                u16::from_le_bytes([b[start], b[start + 1]]) as usize
+            };
+            fields(&vs.get(i).ok_or(())?.1, b, pos, max_decl)
+        }
+        Type::TaggedEnum(m) => {
+            let start = *pos;
+            take(b, pos, 1)?;
+            fields(&m.get(&b[start]).ok_or(())?.1, b, pos, max_decl)
+        }
+        Type::String(sl) | Type::ContractName(sl) | Type::ReceiveName(sl) => {
+            let n = len(b, pos, *sl)?;
+            take(b, pos, usize::try_from(n).map_err(|_| ())?)
+        }
+        Type::ULeb128(c) | Type::ILeb128(c) => {
+            for _ in 0..*c {
+                let start = *pos;
+                take(b, pos, 1)?;
+                if b[start] & 0x80 == 0 {
+                    return Ok(());
+                }
+            }
+            Err(())
+        }
+        Type::ByteList(sl) => {
+            let n = len(b, pos, *sl)?;
+            *max_decl = (*max_decl).max(n);
+            take(b, pos, usize::try_from(n).map_err(|_| ())?)
+        }
+        Type::ByteArray(n) => {
+            *max_decl = (*max_decl).max(*n as u64);
+            take(b, pos, *n as usize)
+        }
+    }
+}
+
+/// largest declared byte-list length the library would loop over for this input
+fn declared_bytelist_len(t: &Type, b: &[u8]) -> u64 {
+    let mut m = 0;
+    let mut pos = 0;
+    let _ = walk(t, b, &mut pos, &mut m);
+    m
+}
+
 fn hostile(sh: &mut Shard, idx: u64, ty: &Type, tbytes: &[u8], b: &[u8], kind: &str) {
+    // ByteList / ByteArray conversion loops over the *declared* length even after the input is
+    // exhausted (reported finding): lengths beyond 2^21 would take minutes and gigabytes, so they
+    // are not executed; lengths up to 2^21 are, and show up through the allocation bound
+    let decl = declared_bytelist_len(ty, b);
+    if decl > (1 << 21) {
+        sh.hit("hostile.skipped_bytelist_length_beyond_2^21");
+        return;
+    }
+    if decl > (1 << 16) && decl as usize > b.len() && kind != "pinned" {
+        // the same defect every time (0.3 s and ~150 MB per execution): executed for the first
+        // few occurrences in a shard only, and reported through the pinned witness below
+        let n = sh.get("hostile.bytelist_loop_inputs");
+        sh.hit("hostile.bytelist_loop_inputs");
+        if n >= 2 {
+            sh.hit("hostile.bytelist_loop_inputs_not_executed");
+            return;
+        }
+    }
     sh.evaluations += 1;
     sh.hit(&format!("hostile.{}", kind));
     let (res, st) = vmon_core::alloc::measure(|| vmon_core::catch(|| ty.to_json(&mut Cursor::new(b)).is_ok()));
@@ -731,7 +877,14 @@ fn hostile(sh: &mut Shard, idx: u64, ty: &Type, tbytes: &[u8], b: &[u8], kind: &
         Ok(ok) => {
             sh.hit(if ok { "hostile.accepted" } else { "hostile.rejected" });
             if st.peak > (64 << 20) + 1024 * b.len() {
-                sh.violate(idx, "alloc-bound", format!("to_json-alloc:{}:{}", util::hex_sig(tbytes), util::hex_sig(b)), format!("to_json on {} bytes had {} bytes live at peak", b.len(), st.peak), case());
+                if decl as usize > b.len() && kind != "pinned" {
+                    // attribute to the pinned witness of the byte-list loop
+                    sh.hit("violation.alloc-bound");
+                    let pin_ty = Type::ByteList(SizeLength::U32);
+                    hostile(sh, idx, &pin_ty, &to_bytes(&pin_ty), &(1u32 << 21).to_le_bytes(), "pinned");
+                } else {
+                    sh.violate(idx, "alloc-bound", format!("to_json-alloc:{}:{}", util::hex_sig(tbytes), util::hex_sig(b)), format!("to_json on {} bytes under {:?} had {} bytes live at peak (largest single request {}, {} allocations): work and memory follow the declared length, not the input", b.len(), ty, st.peak, st.largest, st.count), case());
+                }
             }
         }
     }
